@@ -37,9 +37,11 @@ pub struct TwinOracle {
 }
 
 impl TwinOracle {
+    /// Records the sender's behaviour in the execution that receives the extra acknowledgements.
     pub fn recorder(property: &'static str, sender: usize, baseline: Baseline) -> Self {
         Self { property, sender, baseline, compare: false, cur: None, index: 0, injected_seen: 0, compared: 0 }
     }
+    /// Compares the execution without the extra acknowledgements against the recording.
     pub fn comparer(property: &'static str, sender: usize, baseline: Baseline) -> Self {
         Self { property, sender, baseline, compare: true, cur: None, index: 0, injected_seen: 0, compared: 0 }
     }
@@ -88,7 +90,7 @@ impl Oracle for TwinOracle {
                 let k = self.index;
                 self.index += 1;
                 let Some(b) = base.get(k) else {
-                    return Some(Violation { property: self.property.into(), clause: "twin_diverged".into(), detail: format!("the run with extra acknowledgements makes more calls into the sender than the run without ({} vs {})", k + 1, base.len()), at_call: *call });
+                    return Some(Violation { property: self.property.into(), clause: "twin_diverged".into(), detail: format!("the run without the extra acknowledgements makes more calls into the sender than the run with them ({} vs {})", k + 1, base.len()), at_call: *call });
                 };
                 self.compared += 1;
                 if b.op != snap.op {
@@ -98,11 +100,11 @@ impl Oracle for TwinOracle {
                     let d = format!(
                         "sender call #{} ({}): emitted frames differ: without the extra acks [{}], with them [{}]",
                         k, snap.op,
-                        b.wire.iter().map(|x| crate::tracer::frame_summary(x)).collect::<Vec<_>>().join("; "),
-                        snap.wire.iter().map(|x| crate::tracer::frame_summary(x)).collect::<Vec<_>>().join("; "));
+                        snap.wire.iter().map(|x| crate::tracer::frame_summary(x)).collect::<Vec<_>>().join("; "),
+                        b.wire.iter().map(|x| crate::tracer::frame_summary(x)).collect::<Vec<_>>().join("; "));
                     return Some(Violation { property: self.property.into(), clause: "extra_acks_changed_transmissions".into(), detail: d, at_call: *call });
                 }
-                if let (Some(pa), Some(pb)) = (&b.probe, &snap.probe) {
+                if let (Some(pa), Some(pb)) = (&snap.probe, &b.probe) {
                     if let Some(d) = probe_diff(pa, pb) {
                         return Some(Violation { property: self.property.into(), clause: "extra_acks_changed_sender_state".into(), detail: format!("sender call #{} ({}): {}", k, snap.op, d), at_call: *call });
                     }
@@ -114,15 +116,83 @@ impl Oracle for TwinOracle {
     }
 
     fn reach(&self, out: &mut BTreeMap<String, u64>) {
+        let mut a = |k: &str, v: u64| *out.entry(k.to_string()).or_insert(0) += v;
         if self.compare {
-            let mut a = |k: &str, v: u64| *out.entry(k.to_string()).or_insert(0) += v;
             a("twin_calls_compared", self.compared);
+        } else {
             a("extra_ack_frames_delivered_to_sender", self.injected_seen);
         }
     }
 
     fn nontrivial(&self) -> bool {
-        !self.compare || (self.injected_seen >= 3 && self.compared >= 20)
+        if self.compare { self.compared >= 20 } else { self.injected_seen >= 3 }
+    }
+}
+
+/// Every RTT sample the sender feeds into its estimate is `now - send time of the newest frame
+/// acknowledged for the first time since the previous sample`: frames an acknowledgement merely
+/// repeats contribute nothing. Send times are taken from the wire (the sender's clock at the
+/// step() before the flush that emitted the frame), first acknowledgements from the trace.
+pub struct RttSampleOracle {
+    property: &'static str,
+    sender: usize,
+    /// the sender's stored clock (ms) as of its latest probe
+    clock_ms: u64,
+    send_ms: BTreeMap<u32, u64>,
+    pending: Option<u64>,
+    unknown: bool,
+    checked: u64,
+}
+
+impl RttSampleOracle {
+    pub fn new(property: &'static str, sender: usize) -> Self {
+        Self { property, sender, clock_ms: 0, send_ms: BTreeMap::new(), pending: None, unknown: false, checked: 0 }
+    }
+}
+
+impl Oracle for RttSampleOracle {
+    fn on(&mut self, rec: &Rec, _cx: &Cx) -> Option<Violation> {
+        match rec {
+            Rec::Probe { ep, probe: Probe::Hc(h), .. } if *ep == self.sender => {
+                self.clock_ms = h.now_ms;
+            }
+            Rec::Wire(w) if w.src == self.sender && w.bytes.first() == Some(&FRAME_DATA) && w.bytes.len() >= 5 => {
+                let id = u32::from_be_bytes([w.bytes[1], w.bytes[2], w.bytes[3], w.bytes[4]]);
+                self.send_ms.insert(id, self.clock_ms);
+                if self.send_ms.len() > 20_000 {
+                    let k = *self.send_ms.keys().next().unwrap();
+                    self.send_ms.remove(&k);
+                }
+            }
+            Rec::Trace { call, ep, ev, .. } if *ep == self.sender => match ev {
+                uv::trace::Event::FrameAcked { frame_id } => match self.send_ms.get(frame_id) {
+                    Some(t) => self.pending = Some(self.pending.map_or(*t, |p| p.max(*t))),
+                    None => self.unknown = true,
+                },
+                uv::trace::Event::Feedback { now_ms, rtt_sample_ms, .. } => {
+                    let (pending, unknown) = (self.pending.take(), std::mem::take(&mut self.unknown));
+                    if let (Some(t), false) = (pending, unknown) {
+                        self.checked += 1;
+                        let expected = now_ms.saturating_sub(t);
+                        if *rtt_sample_ms != expected {
+                            let d = format!("sender {}: RTT sample {} ms at {} ms, but the newest frame acknowledged for the first time since the previous sample was sent at {} ms (sample should be {} ms): an already acknowledged frame influenced the sample", ep, rtt_sample_ms, now_ms, t, expected);
+                            return Some(Violation { property: self.property.into(), clause: "rtt_sample_not_from_fresh_ack".into(), detail: d, at_call: *call });
+                        }
+                    }
+                }
+                _ => (),
+            },
+            _ => (),
+        }
+        None
+    }
+
+    fn reach(&self, out: &mut BTreeMap<String, u64>) {
+        *out.entry("rtt_samples_checked_against_first_acknowledgements".to_string()).or_insert(0) += self.checked;
+    }
+
+    fn nontrivial(&self) -> bool {
+        true
     }
 }
 
@@ -137,20 +207,22 @@ pub struct AckForger {
     count: u64,
     max: u64,
     rate: f64,
-    kinds: [bool; 4],
-    pub made: [u64; 4],
+    kinds: [bool; 5],
+    pub made: [u64; 5],
+    /// frames this forger has already acknowledged with a correct nonce (in both executions)
+    forged_acked: std::collections::BTreeSet<u32>,
 }
 
 impl AckForger {
     pub fn new(plan: &Plan, sender: usize, peer: usize) -> Self {
         let mut rng = Rng::keyed(&[plan.fate_seed.unwrap_or(0), 0x61636b66]);
         // swarm: each kind enabled with probability 0.6, at least one
-        let mut kinds = [rng.chance(0.6), rng.chance(0.6), rng.chance(0.6), rng.chance(0.6)];
+        let mut kinds = [rng.chance(0.6), rng.chance(0.6), rng.chance(0.6), rng.chance(0.6), rng.chance(0.4)];
         if !kinds.iter().any(|k| *k) {
-            kinds[rng.below(4) as usize] = true;
+            kinds[rng.below(5) as usize] = true;
         }
         let rate = *rng.pick(&[0.05, 0.2, 0.6]);
-        Self { rng, sender, peer, seen: Seen::default(), genuine: Vec::new(), count: 0, max: plan.param("forge_max", 300.0) as u64, rate, kinds, made: [0; 4] }
+        Self { rng, sender, peer, seen: Seen::default(), genuine: Vec::new(), count: 0, max: plan.param("forge_max", 300.0) as u64, rate, kinds, made: [0; 5], forged_acked: Default::default() }
     }
 }
 
@@ -181,12 +253,54 @@ impl Adversary for AckForger {
         // genuine ack frames the sender has certainly consumed by now (arrived before this call)
         let consumed: Vec<Rc<Vec<u8>>> = self.genuine.iter().filter(|(t, _)| *t + 1000 <= now_ns).map(|(_, b)| b.clone()).collect();
         let kind = {
-            let enabled: Vec<usize> = (0..4).filter(|k| self.kinds[*k]).collect();
+            let enabled: Vec<usize> = (0..5).filter(|k| self.kinds[*k]).collect();
             enabled[self.rng.below(enabled.len() as u64) as usize]
         };
         // window-base fields equal to what the sender already holds: only the groups differ
         let fb = h.tx_frame_window_base_id;
         let pb = h.tx_packet_base_id;
+        if kind == 4 {
+            // (v) a correct-parity group that repeats an earlier acknowledgement of a newer frame
+            // next to a first acknowledgement of an older one: the newer frame b is acknowledged
+            // (correct nonce) first, the group {a, b} later.
+            let mut genuine_acked = std::collections::BTreeSet::new();
+            for b in consumed.iter() {
+                if let Some(uv::Frame::AckFrame(f)) = uv::Frame::read(b) {
+                    for g in f.frame_acks.iter() {
+                        for i in 0..32u32 {
+                            if g.bitfield & (1 << i) != 0 {
+                                genuine_acked.insert(g.base_id.wrapping_add(i));
+                            }
+                        }
+                    }
+                }
+            }
+            let fresh: Vec<(u32, bool)> = self.seen.nonces.iter().cloned()
+                .filter(|(id, _)| id.wrapping_sub(h.tx_frame_log_base_id) < h.tx_frame_log_len && !genuine_acked.contains(id) && !self.forged_acked.contains(id))
+                .collect();
+            if fresh.len() >= 2 {
+                let i = self.rng.below(fresh.len() as u64 - 1) as usize;
+                let (a, na) = fresh[i];
+                let later: Vec<(u32, bool)> = fresh[i + 1..].iter().cloned().filter(|(id, _)| { let d = id.wrapping_sub(a); d >= 1 && d < 32 }).collect();
+                if let Some(&(b, nb)) = later.get(self.rng.below(later.len().max(1) as u64) as usize) {
+                    let d = b.wrapping_sub(a);
+                    let t1 = now_us + 1;
+                    let gap = *self.rng.pick(&[30_000u64, 150_000, 400_000, 1_500_000]);
+                    let g_b = enc_ack(fb, pb, &[(b, 1, nb as u8)]);
+                    let g_ab = enc_ack(fb, pb, &[(a, 1 | (1 << d), (na ^ nb) as u8)]);
+                    // both frames go to both executions: what the repeated bit may not do is
+                    // decided by the RTT sample oracle, not by the comparison (the span of a group
+                    // legitimately contributes its frames' rate-limited flags)
+                    out.push(TimedOp { t_us: t1, rank: DELIVER_RANK_PUB, op: Op::Inject { to: self.sender, from: self.peer, bytes: g_b, twin: false } });
+                    out.push(TimedOp { t_us: t1 + gap, rank: DELIVER_RANK_PUB, op: Op::Inject { to: self.sender, from: self.peer, bytes: g_ab, twin: false } });
+                    self.forged_acked.insert(a);
+                    self.forged_acked.insert(b);
+                    self.made[4] += 1;
+                    self.count += 2;
+                }
+            }
+            return;
+        }
         let bytes: Option<Vec<u8>> = match kind {
             0 => {
                 // (i) known frames, wrong parity
@@ -296,22 +410,30 @@ fn merge_baseline_fates(v: &mut RunVerdict, b: &RunVerdict) {
 
 pub fn twin_run(def: &CheckDef, fam: &Family, plan: &Plan, materialise: bool) -> Result<RunVerdict, String> {
     let sender = plan.param("twin_sender", 0.0) as usize;
-    let baseline: Baseline = Rc::new(RefCell::new(Vec::new()));
-    let mut base_plan = plan.clone();
-    base_plan.timeline.retain(|t| !matches!(t.op, Op::Inject { twin: true, .. }));
-    base_plan.adversary = String::new();
-    // the baseline runs without adversary; fates come from the same keyed stream
-    let base_fam = Family { adversary: None, custom: None, ..fam.clone() };
-    let b = run_plan_with(def, &base_fam, &base_plan, materialise, vec![Box::new(TwinOracle::recorder(def.property, sender, baseline.clone()))])?;
-    if b.violation.is_some() || b.aborted_by_panic.is_some() {
-        return Ok(b);
-    }
+    let recording: Baseline = Rc::new(RefCell::new(Vec::new()));
+    // 1. the execution that receives the extra acknowledgements (in search mode the forger is
+    //    active here and its frames end up in the materialised plan)
     let twin_fam = Family { custom: None, ..fam.clone() };
-    let oracles: Vec<Box<dyn Oracle>> = vec![Box::new(TwinOracle::comparer(def.property, sender, baseline.clone())), Box::new(StateCoverage::new())];
-    let mut v = run_plan_with(def, &twin_fam, plan, materialise, oracles)?;
+    let oracles: Vec<Box<dyn Oracle>> = vec![Box::new(TwinOracle::recorder(def.property, sender, recording.clone())), Box::new(RttSampleOracle::new(def.property, sender)), Box::new(StateCoverage::new())];
+    let t = run_plan_with(def, &twin_fam, plan, true, oracles)?;
+    if t.violation.is_some() || t.aborted_by_panic.is_some() {
+        return Ok(t);
+    }
+    // 2. the same plan without the twin-only frames (frames the forger marked as common to
+    //    both executions stay), compared call by call
+    let mut base_plan = t.materialised.clone().ok_or("twin run produced no materialised plan")?;
+    base_plan.timeline.retain(|t| !matches!(t.op, Op::Inject { twin: true, .. }));
+    let base_fam = Family { adversary: None, custom: None, ..fam.clone() };
+    let mut v = run_plan_with(def, &base_fam, &base_plan, false, vec![Box::new(TwinOracle::comparer(def.property, sender, recording.clone()))])?;
     // digest covers both executions
-    v.digest ^= b.digest.rotate_left(17);
-    merge_baseline_fates(&mut v, &b);
+    v.digest = t.digest ^ v.digest.rotate_left(17);
+    v.materialised = if materialise { t.materialised } else { None };
+    v.nontrivial = v.nontrivial && t.nontrivial;
+    for (k, n) in t.reach.iter() {
+        *v.reach.entry(k.clone()).or_insert(0) += *n;
+    }
+    v.states = t.states;
+    v.stats = t.stats;
     Ok(v)
 }
 
